@@ -3,6 +3,7 @@ package simrt
 import (
 	"context"
 	"sync/atomic"
+	"time"
 
 	"github.com/high-moctane/mocrelay"
 	"github.com/high-moctane/mocrelay/verifsim"
@@ -12,6 +13,7 @@ import (
 type Op struct {
 	Kind string `json:"op"` // send | cancel | closerecv | pause | resume | await
 	Msg  *Msg   `json:"msg,omitempty"`
+	D    int64  `json:"d,omitempty"` // advance: seconds of simulated time
 	N    int    `json:"n,omitempty"` // await: block until N replies (see Client.IsReply) have been received
 	Key  string `json:"key,omitempty"` // awaitkey: block until N messages with this key (see Client.KeyOf) have been received
 }
@@ -20,6 +22,7 @@ type Op struct {
 type Got struct {
 	Msg   mocrelay.ServerMsg
 	Stamp int64
+	T     time.Time // simulated time of receipt
 }
 
 // Sent is the record of one send op.
@@ -28,6 +31,7 @@ type Sent struct {
 	Msg      mocrelay.ClientMsg
 	Invoke   int64 // stamp when the attempt started
 	Accepted int64 // stamp when the system took the message (0: never)
+	InvokeT  time.Time // simulated time of Invoke
 }
 
 // Client is a scripted peer of one Handler session.
@@ -111,7 +115,7 @@ func (c *Client) reader() {
 		}
 		select {
 		case m := <-c.Send:
-			c.Got = append(c.Got, Got{Msg: m, Stamp: c.Sim.Stamp()})
+			c.Got = append(c.Got, Got{Msg: m, Stamp: c.Sim.Stamp(), T: time.Now()})
 			c.Sim.Logf("%s got %s", c.Name, DescribeServer(m))
 			if c.IsReply == nil || c.IsReply(m) {
 				c.replies++
@@ -173,7 +177,7 @@ func (c *Client) exec(i int, op Op) (goOn bool) {
 		if c.OnSend != nil {
 			c.OnSend(i)
 		}
-		s := &Sent{Idx: i, Msg: m, Invoke: c.Sim.Stamp()}
+		s := &Sent{Idx: i, Msg: m, Invoke: c.Sim.Stamp(), InvokeT: time.Now()}
 		c.Sent = append(c.Sent, s)
 		select {
 		case c.Recv <- m:
@@ -198,6 +202,10 @@ func (c *Client) exec(i int, op Op) (goOn bool) {
 		}
 	case "resume":
 		c.Resume()
+	case "advance":
+		c.Sim.Request("advance", time.Duration(op.D)*time.Second)
+	case "sync":
+		c.Sim.Request("sync", 0)
 	case "awaitkey":
 		c.waiting.Store(1)
 		for c.keyCnt[op.Key] < op.N {
